@@ -784,6 +784,52 @@ pub fn worker(ctx: &Ctx, mut wc: WorkerCtx, _extra: &[String]) {
                 }
             }
         }
+        // the same with 70 000 and 1 100 000 filler bytes (sequences longer than any buffer a decoder may
+        // have thought sufficient): whole, cut inside the loop, and in reads of 64 KiB
+        let mut very_long = 0u64;
+        for st in 0..t.size {
+            let Some(pre) = prefix[st].clone() else { continue };
+            let Some(filler) = (0x20u8..0x7f).find(|b| t.step(st, *b) == Some(st)) else { continue };
+            for exit in local_reps(which, st) {
+                if t.step(st, exit) == Some(st) {
+                    continue;
+                }
+                for k in [70_000usize, 1_100_000] {
+                    // the megabyte-long variant only with the two exits every looping state has: ESC and a dead byte
+                    if k > 100_000 && !(exit == 0x1b || exit == 0x80) {
+                        continue;
+                    }
+                    for tail in [&b""[..], &b"\x1b\\x"[..]] {
+                        unit += 1;
+                        if unit % shards != shard {
+                            continue;
+                        }
+                        case += 1;
+                        if case <= resume {
+                            continue;
+                        }
+                        let mut w = pre.clone();
+                        w.extend(std::iter::repeat(filler).take(k + 1));
+                        w.push(exit);
+                        w.extend_from_slice(tail);
+                        wc.begin_case(case, &descriptor(1, which, &w[..w.len().min(200)], &[2]));
+                        very_long += 1;
+                        let n = w.len();
+                        let a = pre.len() + 1;
+                        let mut chunks = vec![];
+                        let mut left = n;
+                        while left > 0 {
+                            let c = left.min(65_536);
+                            chunks.push(c);
+                            left -= c;
+                        }
+                        let parts = vec![vec![n], vec![a, n - a], chunks];
+                        check_and_report(&mut wc, &mut local, which, &w, &parts, "long", true);
+                    }
+                }
+            }
+        }
+        wc.count(&format!("L_{}_very_long_cases", which.name()), very_long);
         wc.count(&format!("L_{}_looping_states", which.name()), if shard == 0 { looping } else { 0 });
         wc.count(&format!("L_{}_cases", which.name()), checked);
         wc.count(&format!("L_{}_runs", which.name()), checked * 5);
